@@ -24,7 +24,9 @@ use genapi::GenApiReg;
 type Camera = cameleon::Camera<SharedControlHandle, StreamHandle, SharedDefaultGenApiCtxt>;
 
 pub(crate) fn enumerate_u3v_device() -> GenTlResult<Vec<U3VDeviceModule>> {
-    todo!()
+    // Device enumeration isn't implemented yet. Report it through the GenTL error code instead of
+    // panicking, a panic would abort the process of the GenTL consumer.
+    Err(GenTlError::NotImplemented)
 }
 
 pub(crate) struct U3VDeviceModule {
